@@ -30,6 +30,7 @@
 #include "../common/diagnostics/DiagnosticDescriptor.h"
 #include "../common/infra/AccessSpecifiers.h"
 
+#include <vector>
 #include <memory>
 
 namespace psy {
@@ -240,6 +241,7 @@ private:
 
     bool isNULLPointerConstant(const SyntaxNode* node);
     bool isAssignableType(const Type* ty, const SyntaxNode* node);
+    std::vector<const Type*> tysUnderAssignabilityCheck_;
     bool isTypeAssignableFromOtherType(const Type* ty,
                                        const Type* otherTy,
                                        const SyntaxNode* node);
